@@ -178,7 +178,10 @@ func (*c18) Rule() string {
 		"NewConstraint/Check vs the model (structured: all 12 operators, x/X/* wildcards, partial versions, hyphen ranges, pre-releases on " +
 		"either side, white-space and separator variants, AND/OR combinations; 12% mutated strings, 10% from a list of 149 quirk strings; " +
 		"versions near the constraint's numbers; the same generator feeds 25% of the Get/tag/Resolve constraints; shape distribution under " +
-		"extra.constraint_language); non-trivial = the index loaded, some chart kept " +
+		"extra.constraint_language), plus one OCI tag listing per case served by an in-process registry stub in 1-4 pages " +
+		"(0-12 tags in lexical order: semver tags with pre-releases and _metadata, odd tags such as latest, v1.2.3, 1.2.3-, 1.2.3-a..b) " +
+		"with 3-5 version arguments for Client.Tags / ValidateReference / tag match / Resolve of an OCI dependency; " +
+		"non-trivial = the index loaded, some chart kept " +
 		">= 2 entries and at least one Get returned an entry; distinct = hash of (case, observation)"
 }
 
